@@ -63,6 +63,10 @@ func history(c *harness.Ctx, id string, r *rand.Rand) {
 		c.Inconclusive("cannot build block relay service: " + err.Error())
 		return
 	}
+	// one validator may be a round away from activation: validating from the next epoch on ("about to be active")
+	if r.Intn(3) == 0 {
+		env.Accounts.SetActiveFrom(phase0.ValidatorIndex(9000+r.Intn(nVal)), env.Clock.CurrentEpoch()+1)
+	}
 	// documents A, B (and A again)
 	gen := func() *refcfg.Doc2 {
 		d := refcfg.GenDoc(r)
@@ -113,7 +117,8 @@ func history(c *harness.Ctx, id string, r *rand.Rand) {
 			}
 		}
 		for i, n := range env.Nodes {
-			n.Fail = r.Intn(5) == 0
+			n.Fail = r.Intn(4) == 0
+			n.Kind = []string{"", "timeout"}[r.Intn(2)]
 			if n.Fail {
 				rd.FailNodes = append(rd.FailNodes, i)
 			}
